@@ -37,6 +37,7 @@ PROFILE = {
     "feat": _feat,
     "edits": ["var", "ver", "lit", "comment", "unrelated", "default"],
     "n": (3, 10),
+    "locations": ["package", "package", "package", "main", "notebook"],
     "p_restart": 0.7,
     "stores": ("local", "local", "local+cache", "memory"),
 }
